@@ -54,6 +54,7 @@ def TypedVals.num (t : TypedVals) (k : Kw) : XReal :=
 @[simp] theorem XReal.fin_sub_fin (a b : Rat) : XReal.fin a - XReal.fin b = .fin (a - b) := rfl
 @[simp] theorem XReal.fin_mul_fin (a b : Rat) : XReal.fin a * XReal.fin b = .fin (a * b) := rfl
 @[simp] theorem XReal.fin_div_fin (a b : Rat) : XReal.fin a / XReal.fin b = .fin (a / b) := rfl
+@[simp] theorem XReal.round_fin (q : Rat) : XReal.round (.fin q) = .fin (XReal.rne53 q) := rfl
 @[simp] theorem XReal.trunc_fin (q : Rat) : XReal.trunc (.fin q) = .fin (XReal.truncQ q : Rat) := rfl
 /-- NaN satisfies no comparison -/
 @[simp] theorem XReal.nan_le (x : XReal) : ¬ (XReal.nan ≤ x) := by cases x <;> exact id
